@@ -124,6 +124,10 @@ func newSentinel(nonce uint64) *sentinel {
 	s := &sentinel{dir: dir, secret: fmt.Sprintf("SECRET-%016x", nonce)}
 	os.WriteFile(filepath.Join(dir, "secret.txt"), []byte(s.secret+"\nline2\n"), 0o644)
 	os.Mkdir(filepath.Join(dir, "sub"), 0o755)
+	// temporary files and relative names land inside the sentinel as well
+	os.Mkdir(filepath.Join(dir, "tmp"), 0o755)
+	os.Setenv("TMPDIR", filepath.Join(dir, "tmp"))
+	os.Chdir(dir)
 	os.WriteFile(filepath.Join(dir, "smod.lua"), []byte(fmt.Sprintf("local f = io.open(%q, \"w\") if f then f:write(\"x\") f:close() end return %q\n", filepath.Join(dir, "executed"), s.secret)), 0o644)
 	s.snap = s.snapshot()
 	return s
@@ -165,6 +169,8 @@ func (s *sentinel) changed() string {
 }
 
 func (s *sentinel) restore() {
+	os.Chdir("/var/tmp")
+	os.Unsetenv("TMPDIR")
 	os.RemoveAll(s.dir)
 }
 
